@@ -128,6 +128,7 @@ def check(eng, res):
 
     sub2 = type(res)(res.prop)
     c02.branch_order(eng, sub2)
+    c02.descriptor_origin(eng, sub2)
     res.obligations += sub2.obligations
     # the token scanner decides which characters are atoms and in which order (shared with C02)
     from . import c02 as _c02
